@@ -74,11 +74,25 @@ func (fst *FSTree) buildFilePath(key string, checkKeyLength bool) (string, error
 	}
 	// build filepath
 	dstPath := filepath.Join(fst.basePath, key) // Join also calls Clean()
-	if !strings.HasPrefix(dstPath, fst.basePath) {
+	if !fst.isInScope(dstPath) {
 		return "", fmt.Errorf("fstree: key integrity check failed, compiled path is %s", dstPath)
 	}
 	// return
 	return dstPath, nil
+}
+
+// isInScope returns whether the given cleaned path is the base path or below
+// it. Sibling directories that merely share the base path as a name prefix
+// are not in scope.
+func (fst *FSTree) isInScope(path string) bool {
+	if path == fst.basePath {
+		return true
+	}
+	scope := fst.basePath
+	if !strings.HasSuffix(scope, string(filepath.Separator)) {
+		scope += string(filepath.Separator)
+	}
+	return strings.HasPrefix(path, scope)
 }
 
 // Get returns a database record.
@@ -197,7 +211,7 @@ func (fst *FSTree) queryExecutor(walkRoot string, queryIter *iterator.Iterator, 
 
 		if info.IsDir() {
 			// skip dir if not in scope
-			if !strings.HasPrefix(path, fst.basePath) {
+			if !fst.isInScope(path) {
 				return filepath.SkipDir
 			}
 			// continue
@@ -205,7 +219,7 @@ func (fst *FSTree) queryExecutor(walkRoot string, queryIter *iterator.Iterator, 
 		}
 
 		// still in scope?
-		if !strings.HasPrefix(path, fst.basePath) {
+		if !fst.isInScope(path) {
 			return nil
 		}
 
